@@ -37,7 +37,7 @@ macro_rules! l2_harness {
         #[kani::stub(RcInner::decrement_strong, k_decrement_strong)]
         #[kani::stub(RcInner::increment_weak, k_increment_weak)]
         #[kani::stub(RcInner::decrement_weak, k_decrement_weak)]
-        #[kani::stub(crate::ebr_impl::internal::Local::unpin, crate::ebr_impl::internal::verif_internal::s_unpin_unreachable)]
+        #[kani::stub(crate::ebr_impl::internal::Local::unpin, crate::ebr_impl::internal::verif_cut::s_unpin_unreachable)]
         $(#[$m])*
         fn $name() { #[allow(unused_unsafe)] unsafe { $body } }
     };
